@@ -83,6 +83,8 @@ def plan(seed, subbatch):
         extras.append((op_rng.random(), {"op": "restart"}))
     if op_rng.random() < 0.3:
         extras.append((op_rng.random(), {"op": op_rng.choice(("recalculate_all", "purge_all"))}))
+    if sub_rng(seed, "readd").random() < 0.15:
+        extras.append((sub_rng(seed, "readd-at").random(), {"op": "readd_same", "target": sub_rng(seed, "readd-k").randint(0, 3)}))
     start = world.pick_start(cfg, base_s, widest)
     k = cfg.choice((0, 0, 1, 2, n // 2, n))
     if hexcfg.get("lifespan_s"):
@@ -164,7 +166,7 @@ def _spans_more_than(rows, lifespan_s):
 def execute(trace, ctx=None):
     def body(run):
         cfg = trace["config"]
-        members, forms, h = cfg["members"], cfg["forms"], cfg["hexital"]
+        members, forms, h = list(cfg["members"]), list(cfg["forms"]), cfg["hexital"]
         names = [member_name(m) for m in members]
         if len(set(names)) != len(names):
             raise Discard("duplicate-names")
@@ -237,6 +239,26 @@ def execute(trace, ctx=None):
                 except LibError as e:
                     raise Violation("maintenance-raises", "hexital", e.site, {"error": repr(e.exc)})
                 run.stats["maintenance_all"] += 1
+            elif kind == "readd_same":
+                # one member is taken out and the very same object is put back: like its solo twin recalculating
+                if hx is None or not members:
+                    continue
+                k = op.get("target", 0) % len(members)
+                obj = member_objs()[k]
+                try:
+                    twins[k].recalculate()
+                except Exception as exc:  # noqa: BLE001
+                    raise Discard("solo-twin-raised:" + type(exc).__name__)
+                try:
+                    run.call(filled_size(delivered, tfs) * 8, hx.remove_indicator, obj.name)
+                    run.call(filled_size(delivered, tfs) * 8, hx.add_indicator, obj)
+                    run.call(filled_size(delivered, tfs) * 8, hx.calculate)
+                except LibError as e:
+                    raise Violation("maintenance-raises", "hexital", e.site, {"error": repr(e.exc), "op": kind})
+                # the member is now registered last
+                for lst in (members, forms, names, twins):
+                    lst.append(lst.pop(k))
+                run.stats["reach:same_object_removed_and_added_again"] += 1
             elif kind == "restart":
                 # process restart: only the settings dicts and the raw candles survive
                 try:
